@@ -211,23 +211,31 @@ def interpvars(f, weights, dimension, loginterp=[]):
                 vark, oldvar.dtype.char, oldvar.dimensions, **kwds)
             for ak in oldvar.ncattrs():
                 setattr(newvar, ak, getattr(oldvar, ak))
-            if len(weights.shape) <= len(oldvar.dimensions):
-                weightslice = (None,) * (dimidx) + (Ellipsis,) + \
-                    (None,) * len(oldvar.dimensions[dimidx + 1:])
-            else:
-                weightslice = slice(None)
-            varslice = (slice(None,),) * dimidx + (None,)
-            weightsv = weights[weightslice]
-            oldvarv = oldvar[varslice]
-            if not (weightsv.ndim - 1) == oldvar.ndim:
-                warn('Wrong number of dimensions for %s' % (vark,))
-            elif vark in loginterp:
-                logv = np.ma.exp(
-                    (weightsv * np.ma.log(oldvarv)).sum(dimidx + 1))
-                newvar[:] = logv
-            else:
-                linv = (weightsv * oldvarv).sum(dimidx + 1)
-                newvar[:] = linv
+            # a variable may use the dimension more than once (e.g., an
+            # averaging kernel): every such axis is interpolated in turn
+            dimidxs = [di for di, dk in enumerate(oldvar.dimensions)
+                       if dk == dimension]
+            newvals = oldvar
+            for dimidx in dimidxs:
+                if len(weights.shape) <= len(oldvar.dimensions):
+                    weightslice = (None,) * (dimidx) + (Ellipsis,) + \
+                        (None,) * len(oldvar.dimensions[dimidx + 1:])
+                else:
+                    weightslice = slice(None)
+                varslice = (slice(None,),) * dimidx + (None,)
+                weightsv = weights[weightslice]
+                oldvarv = newvals[varslice]
+                if not (weightsv.ndim - 1) == oldvar.ndim:
+                    warn('Wrong number of dimensions for %s' % (vark,))
+                    newvals = None
+                    break
+                elif vark in loginterp:
+                    newvals = np.ma.exp(
+                        (weightsv * np.ma.log(oldvarv)).sum(dimidx + 1))
+                else:
+                    newvals = (weightsv * oldvarv).sum(dimidx + 1)
+            if newvals is not None:
+                newvar[:] = newvals
         else:
             outf.variables[vark] = oldvar
     return outf
